@@ -44,8 +44,31 @@ CONSTANTS Emit, Tier
 
 ----------------------------------------------------------------------------
 S == TNamed("s")   Q == TNamed("q")
+\* NAMED NON-STRUCT TYPES (aliases, see Types!Alias) are a dimension of the operand types of
+\* every kind: each case also occurs with every operand / explicit type that has a name spelled by
+\* that name (Named below).  The rule works on what the names stand for, and a result type
+\* that an instruction BUILDS is a new, unnamed type: the harness requires that a type object
+\* carrying a name denotes the type the name is defined as.
+AliasDefs == { <<"I", TInt(8)>>, <<"V", TVec(FALSE, 2, TInt(8))>>, <<"P", TPtr(TInt(8), 0)>>,
+               <<"A", TArr(2, TInt(64))>>, <<"D", TFloat("double")>>, <<"VD", TVec(FALSE, 2, TFloat("double"))>> }
 UR == [s |-> Body(FALSE, <<I32, TArr(2, I8), TPtr(S, 0)>>),
        q |-> Body(TRUE,  <<I8, TVec(FALSE, 2, I32)>>)]
+      @@ [nm \in {d[1] : d \in AliasDefs} |-> Alias((CHOOSE d \in AliasDefs : d[1] = nm)[2])]
+\* spell every subterm that has a name by its name (outermost first)
+RECURSIVE Named(_)
+Named(t) ==
+  IF \E d \in AliasDefs : d[2] = t THEN TNamed((CHOOSE d \in AliasDefs : d[2] = t)[1])
+  ELSE CASE t.k \in {"ptr", "vec", "arr"} -> [t EXCEPT !.e = Named(t.e)]
+         [] t.k = "struct" -> [t EXCEPT !.fs = [i \in 1..Len(t.fs) |-> Named(t.fs[i])]]
+         [] t.k = "func"   -> [t EXCEPT !.ret = Named(t.ret), !.ps = [i \in 1..Len(t.ps) |-> Named(t.ps[i])]]
+         [] OTHER          -> t
+MapX(x, F(_)) == LET x1 == IF "ty" \in DOMAIN x THEN [x EXCEPT !.ty = F(x.ty)] ELSE x
+                     x2 == IF "to" \in DOMAIN x1 THEN [x1 EXCEPT !.to = F(x1.to)] ELSE x1
+                     x3 == IF "src" \in DOMAIN x2 THEN [x2 EXCEPT !.src = F(x2.src)] ELSE x2
+                 IN x3
+NamedCase(c) == [c EXCEPT !.ops = [i \in 1..Len(c.ops) |-> Named(c.ops[i])], !.x = MapX(c.x, Named)]
+DerefT(t) == Deref(UR, t)
+DerefCase(c) == [c EXCEPT !.ops = [i \in 1..Len(c.ops) |-> Deref(UR, c.ops[i])], !.x = MapX(c.x, DerefT)]
 
 I16 == TInt(16)   I129 == TInt(129)
 Half == TFloat("half")   Float == TFloat("float")   Double == TFloat("double")   FP80 == TFloat("x86_fp80")
@@ -128,8 +151,19 @@ CallOps(rets) ==
            [ops |-> <<TPtr(TFunc(r, <<>>, TRUE), 1)>>, va |-> TRUE],
            [ops |-> <<TPtr(TFunc(r, <<I8>>, FALSE), 1), I8>>, va |-> FALSE] } : r \in rets}
 Spellings(co) == IF co.va THEN {"full"} ELSE {"short", "full"}
+\* ... and the FORM of the callee operand, x.cf.  The result type is the return type of the
+\* function type the callee EXPRESSION points to, whatever it is made from:
+\*    "value"    a pointer-typed SSA value
+\*    "func"     a declared function @d
+\*    "bitcast"  bitcast (SRC* @d to DST*): a function of another signature x.src (other return
+\*               type, variadic <-> non-variadic) cast to the callee type
+\*    "inttoptr" inttoptr (i64 N to DST*)
+\* (constant callees only in address space 0; callbr admits only inline assembly in LLVM 14)
+SrcSig(ft) == TFunc(IF ft.ret = TVoid THEN I32 ELSE TVoid, ft.ps, ~ft.va)
+CalleeForms(co) == IF co.ops[1].as = 0 THEN {"value", "func", "bitcast", "inttoptr"} ELSE {"value"}
 CallCases(kind, form, rets) ==
-  UNION {{C(kind, form, co.ops, [sp |-> sp]) : sp \in Spellings(co)} : co \in CallOps(rets)}
+  UNION {UNION {{C(kind, form, co.ops, [sp |-> sp, cf |-> cf, src |-> SrcSig(co.ops[1].e)]) : sp \in Spellings(co)}
+                  : cf \in CalleeForms(co)} : co \in CallOps(rets)}
 
 Masks(v) == IF v.sc THEN {TVec(TRUE, 2, I32), TVec(TRUE, 4, I32)} ELSE {TVec(FALSE, 2, I32), TVec(FALSE, 4, I32), TVec(FALSE, 1, I32)}
 
@@ -165,7 +199,7 @@ Kinds == UnaryKinds \cup IntBinKinds \cup FPBinKinds \cup CastKinds \cup CallKin
          \cup {"icmp", "fcmp", "extractelement", "insertelement", "shufflevector", "extractvalue", "insertvalue",
                "alloca", "load", "getelementptr", "cmpxchg", "atomicrmw", "phi", "select", "freeze", "va_arg", "landingpad"}
 
-CasesOf(kind) ==
+BaseCasesOf(kind) ==
   CASE kind = "fneg" -> UNION {BothForms(kind, <<t>>, None) : t \in FPT}
     [] kind \in IntBinKinds ->
          UNION {IF kind \in CExprIntBin THEN BothForms(kind, <<t, t>>, None) ELSE {C(kind, "inst", <<t, t>>, None)} : t \in IntT}
@@ -193,12 +227,18 @@ CasesOf(kind) ==
     [] kind = "call"   -> CallCases(kind, "inst", RetTypes)
     [] kind = "invoke" -> CallCases(kind, "term", {TVoid, I8, VS2(I64), Lit, S, V2(P1)} \cup PtrS)
        \* callbr: the callee is inline assembly (the only callee LLVM 14 allows), one output or none
-    [] kind = "callbr" -> {C(kind, "term", <<TPtr(TFunc(r, <<P0>>, FALSE), 0), P0>>, [sp |-> sp])
+    [] kind = "callbr" -> {C(kind, "term", <<TPtr(TFunc(r, <<P0>>, FALSE), 0), P0>>, [sp |-> sp, cf |-> "asm"])
                              : r \in {TVoid, I32, I64} \cup PtrS, sp \in {"short", "full"}}
     [] kind = "va_arg" -> {C(kind, "inst", <<p>>, [ty |-> t]) : p \in PtrS, t \in {I32, Double, V2(I64), V2(P1), Lit, TPtr(S, 1)} \cup PtrS}
     [] kind = "landingpad" -> {C(kind, "inst", <<>>, [ty |-> t]) : t \in {I32, Lit} \cup {TStruct(FALSE, <<p, I32>>) : p \in PtrS}}
     [] kind \in {"catchpad", "cleanuppad"} -> {C(kind, "inst", <<>>, None)}
     [] kind = "catchswitch" -> {C(kind, "term", <<>>, None)}
+
+\* every case, and every case with its named types spelled by name
+\* (functions of constants only: TLC evaluates them once)
+BaseByKind == [k \in Kinds |-> BaseCasesOf(k)]
+AllByKind  == [k \in Kinds |-> BaseByKind[k] \cup {NamedCase(c) : c \in BaseByKind[k]}]
+CasesOf(kind) == AllByKind[kind]
 
 ----------------------------------------------------------------------------
 VARIABLES kd, cs, stage
@@ -210,31 +250,35 @@ Next == \/ stage = 0 /\ kd' \in Kinds /\ stage' = 1 /\ UNCHANGED cs
         \/ stage = 1 /\ cs' \in CasesOf(kd) /\ stage' = 2 /\ UNCHANGED kd
 Spec == Init /\ [][Next]_vars
 
-Res == ResultType(UR, cs.kind, cs.ops, cs.x)
+\* the rule sees what the names stand for; the required type is spelled without alias names
+DC == DerefCase(cs)
+Res == Deref(UR, ResultType(UR, DC.kind, DC.ops, DC.x))
 At2 == stage = 2
 
 \* the sentences of the property, on the required function
-ResWellFormed == At2 => WellFormed(UR, Res) /\ \A i \in 1..Len(cs.ops) : WellFormed(UR, cs.ops[i])
+ResWellFormed == At2 => WellFormed(UR, Res) /\ \A i \in 1..Len(DC.ops) : WellFormed(UR, DC.ops[i])
 CmpShape == At2 /\ cs.kind \in {"icmp", "fcmp"} =>
-              LET o == cs.ops[1] IN
+              LET o == DC.ops[1] IN
               IF o.k = "vec" THEN Res.k = "vec" /\ Res.e = I1 /\ Res.n = o.n /\ Res.sc = o.sc ELSE Res = I1
-CmpXchgPair == At2 /\ cs.kind = "cmpxchg" => Res = TStruct(FALSE, <<cs.ops[3], I1>>) /\ cs.ops[1].e = cs.ops[3] /\ ~Res.pk
+CmpXchgPair == At2 /\ cs.kind = "cmpxchg" => Res = TStruct(FALSE, <<DC.ops[3], I1>>) /\ DC.ops[1].e = DC.ops[3] /\ ~Res.pk
 CallRet == At2 /\ cs.kind \in CallKinds =>
-             /\ Res = cs.ops[1].e.ret
-             /\ cs.x.sp \in {"short", "full"} /\ (cs.ops[1].e.va => cs.x.sp = "full")
+             /\ Res = DC.ops[1].e.ret
+             /\ DC.x.sp \in {"short", "full"} /\ (DC.ops[1].e.va => DC.x.sp = "full")
              \* the spelling is not an input of the rule: both spellings of a callee are cases
-             /\ ~cs.ops[1].e.va => \A sp \in {"short", "full"} : C(cs.kind, cs.form, cs.ops, [sp |-> sp]) \in CasesOf(cs.kind)
-CastTarget == At2 /\ cs.kind \in CastKinds => Res = cs.x.to
-AggPathFollowed == /\ At2 /\ cs.kind = "extractvalue" => AggPathOK(UR, cs.ops[1], cs.x.idx) /\ Res = AggPath(UR, cs.ops[1], cs.x.idx)
-                   /\ At2 /\ cs.kind = "insertvalue" => Res = cs.ops[1] /\ cs.ops[2] = AggPath(UR, cs.ops[1], cs.x.idx)
+             /\ ~DC.ops[1].e.va => \A sp \in {"short", "full"} : [cs EXCEPT !.x.sp = sp] \in CasesOf(cs.kind)
+             \* a cast callee has another return type than its source function
+             /\ DC.x.cf = "bitcast" => DC.x.src.ret # Res /\ DC.x.src.va # DC.ops[1].e.va
+CastTarget == At2 /\ cs.kind \in CastKinds => Res = DC.x.to
+AggPathFollowed == /\ At2 /\ cs.kind = "extractvalue" => AggPathOK(UR, DC.ops[1], DC.x.idx) /\ Res = AggPath(UR, DC.ops[1], DC.x.idx)
+                   /\ At2 /\ cs.kind = "insertvalue" => Res = DC.ops[1] /\ DC.ops[2] = AggPath(UR, DC.ops[1], DC.x.idx)
 ShuffleMask == At2 /\ cs.kind = "shufflevector" =>
-                 Res.k = "vec" /\ Res.n = cs.ops[3].n /\ Res.sc = cs.ops[3].sc /\ Res.e = cs.ops[1].e /\ cs.ops[3].sc = cs.ops[1].sc
+                 Res.k = "vec" /\ Res.n = DC.ops[3].n /\ Res.sc = DC.ops[3].sc /\ Res.e = DC.ops[1].e /\ DC.ops[3].sc = DC.ops[1].sc
 \* getelementptr: pointer (or vector of pointers, when the base or an index is a vector) to the
 \* reached element, in the ADDRESS SPACE OF THE BASE, also inside a vector result
 GepRow == At2 /\ cs.kind = "getelementptr" =>
-            LET bp == IF cs.ops[1].k = "vec" THEN cs.ops[1].e ELSE cs.ops[1]
+            LET bp == IF DC.ops[1].k = "vec" THEN DC.ops[1].e ELSE DC.ops[1]
                 rp == IF Res.k = "vec" THEN Res.e ELSE Res
-                anyVec == \E i \in 1..Len(cs.ops) : cs.ops[i].k = "vec"
+                anyVec == \E i \in 1..Len(DC.ops) : DC.ops[i].k = "vec"
             IN rp.k = "ptr" /\ rp.as = bp.as /\ (Res.k = "vec" <=> anyVec)
 \* vacuity guard: pointer results in a non-zero address space occur for every pointer-producing kind
 PtrKinds == {"getelementptr", "alloca", "load", "inttoptr", "bitcast", "addrspacecast", "select", "phi", "freeze",
@@ -245,17 +289,21 @@ MentionsAS(t) == CASE t.k = "ptr" -> t.as # 0 \/ MentionsAS(t.e)
                    [] t.k \in {"vec", "arr"} -> MentionsAS(t.e)
                    [] t.k = "struct" -> \E i \in 1..Len(t.fs) : MentionsAS(t.fs[i])
                    [] OTHER -> FALSE
-ASCovered == \A k \in PtrKinds : \E c \in CasesOf(k) : MentionsAS(ResultType(UR, c.kind, c.ops, c.x))
+ASCovered == \A k \in PtrKinds : \E c \in BaseByKind[k] : MentionsAS(ResultType(UR, c.kind, c.ops, c.x))
 ASSUME ASCovered
-SameAsOperand == At2 /\ cs.kind \in UnaryKinds \cup IntBinKinds \cup FPBinKinds \cup {"freeze", "insertelement"} => Res = cs.ops[1]
+SameAsOperand == At2 /\ cs.kind \in UnaryKinds \cup IntBinKinds \cup FPBinKinds \cup {"freeze", "insertelement"} => Res = DC.ops[1]
 
 \* deviation: comparisons and shuffles as implemented (result vector built without `scalable`)
 ResAsImplemented ==
-  CASE cs.kind \in {"icmp", "fcmp"} /\ cs.ops[1].k = "vec" -> TVec(FALSE, cs.ops[1].n, I1)
-    [] cs.kind = "shufflevector" -> TVec(FALSE, cs.ops[3].n, cs.ops[1].e)
+  CASE cs.kind \in {"icmp", "fcmp"} /\ DC.ops[1].k = "vec" -> TVec(FALSE, DC.ops[1].n, I1)
+    [] cs.kind = "shufflevector" -> TVec(FALSE, DC.ops[3].n, DC.ops[1].e)
     [] OTHER -> Res
 ImplAgrees == At2 => ResAsImplemented = Res
 
+\* alias names are transparent: a case and its named spelling have the same required type
+NamesTransparent == At2 => Res = Deref(UR, ResultType(UR, DC.kind, DC.ops, DC.x)) /\ Deref(UR, Res) = Res
+                           /\ (cs \in BaseByKind[kd] => LET n == DerefCase(NamedCase(cs)) IN
+                                  ResultType(UR, n.kind, n.ops, n.x) = ResultType(UR, cs.kind, cs.ops, cs.x))
 Out(rec) == Serialize(ToJson(rec) \o "\n", "res_cases.ndjson",
                       [format |-> "TXT", charset |-> "UTF-8",
                        openOptions |-> <<"WRITE", "CREATE", "APPEND">>]).exitValue = 0
